@@ -19,7 +19,7 @@ REQUIRED_OBS = ["trees_round_tripped", "entries_compared", "modes_compared", "mt
 RULE = ("generated trees (depth <= 5; empty and non-empty directories; files of size 0..; relative symlinks to files and directories, sideways and "
         "upward-but-inside; Unicode names; file modes 0o400..0o777, directory modes 0o500..0o777; mtimes 1970..2100 with 100 ns fractions) x entry point "
         "{writeall+extractall, pack_7zarchive+unpack_7zarchive} x arcname None/given x source absolute/relative x dereference off/on x default filters / "
-        "password. Half of the cases run as uid 65534 (root ignores permission bits). Oracle: lstat/readlink/read walk of the extracted tree vs the source: "
+        "password; the tree written into a fresh archive, after a member given as data, or appended to an existing archive. Half of the cases run as uid 65534 (root ignores permission bits). Oracle: lstat/readlink/read walk of the extracted tree vs the source: "
         "path set, kinds, bytes, link text, S_IMODE of files and directories, mtime within 5 microseconds. Cell = (entry point, arcname, source form, "
         "deref, uid, kinds present, has read-only dir).")
 ASSUMPTIONS = ["symlink modes/mtimes are not compared (the statement restricts modes and times to files and directories)",
@@ -34,7 +34,7 @@ def cases(rng, tier):
         tree = T.tree(rng, max_entries=rng.choice([3, 6, 12, 16]), max_len=30000, links=True, small_alphabet=(rng.random() < 0.2))
         if deref and (T.has_dir_link_cycle(tree) or not T.deref_image_is_finite(tree)):
             deref = False  # an upward or mutually recursive directory link has no finite dereferenced image
-        out.append({"tree": tree, "entry": "shutil" if rng.random() < 0.15 and not deref else "writeall", "arcname": rng.choice([None, None, "arc", "deep/arc name"]),
+        out.append({"tree": tree, "entry": "shutil" if rng.random() < 0.15 and not deref else rng.choice(["writeall", "writeall", "writeall", "append", "after-writestr"]), "arcname": rng.choice([None, None, "arc", "deep/arc name"]),
                     "source": rng.choice(["abs", "rel"]), "deref": deref, "password": rng.choice([None, None, None, "pässwörd"]),
                     "uid": 65534 if i % 2 else 0, "chain": (G.chain(rng, aes=False) if rng.random() < 0.3 else None)})
     return out
@@ -128,8 +128,19 @@ def _body(case, d):
         else:
             filters = G.resolve_chain(case["chain"]) if case["chain"] else None
             try:
-                with py7zr.SevenZipFile(arc, "w", filters=filters, password=case["password"], dereference=case["deref"]) as z:
-                    z.writeall(srcarg, arcname=case["arcname"])
+                if case["entry"] == "append":
+                    # the tree is added to an archive that already holds a member given as data (no source path)
+                    with py7zr.SevenZipFile(arc, "w", filters=filters, password=case["password"]) as z:
+                        z.writestr(b"there before", "pre-existing.txt")
+                    with py7zr.SevenZipFile(arc, "a", filters=filters, password=case["password"], dereference=case["deref"]) as z:
+                        z.writeall(srcarg, arcname=case["arcname"])
+                elif case["entry"] == "after-writestr":
+                    with py7zr.SevenZipFile(arc, "w", filters=filters, password=case["password"], dereference=case["deref"]) as z:
+                        z.writestr(b"there before", "pre-existing.txt")
+                        z.writeall(srcarg, arcname=case["arcname"])
+                else:
+                    with py7zr.SevenZipFile(arc, "w", filters=filters, password=case["password"], dereference=case["deref"]) as z:
+                        z.writeall(srcarg, arcname=case["arcname"])
             except py7zr.exceptions.UnsupportedCompressionMethodError:
                 return {"rejected": True}
             with py7zr.SevenZipFile(arc, "r", password=case["password"]) as z:
@@ -143,6 +154,10 @@ def _body(case, d):
     finally:
         os.chdir(cwd0)
     want = expected_image(case["tree"], case["deref"])
+    if case["entry"] in ("append", "after-writestr"):
+        pre = os.path.join(dst, "pre-existing.txt")
+        if not os.path.isfile(pre) or open(pre, "rb").read() != b"there before":
+            viol.append({"key": "earlier-member-lost/%s" % case["entry"], "what": "the member written before the tree (%s) is missing or changed after extraction" % case["entry"]})
     got = pz.walk_tree(top) if os.path.isdir(top) else None
     if got is None:
         viol.append({"key": "root-missing", "what": "extracted tree root %r does not exist" % os.path.relpath(top, d)})
